@@ -53,7 +53,7 @@ def assigned_names(body):
                         names.add(x.id)
             elif isinstance(n, ast.Call) and isinstance(n.func, ast.Attribute) and \
                     isinstance(n.func.value, ast.Name) and \
-                    n.func.attr in ("append", "remove", "pop", "extend", "insert", "clear"):
+                    n.func.attr in ("append", "remove", "pop", "extend", "insert", "clear", "update", "add"):
                 names.add(n.func.value.id)
     return names
 
@@ -351,6 +351,8 @@ def havoc_like(ex, v, name):
         m.attrs["n"] = ex.fresh(name + ".n", z3.IntSort())
         m.fresh = v.fresh
         return m
+    if isinstance(v, Obj) and v.cls == "pyset":
+        return Obj("pyset", {"id": Z(ex.fresh(f"{name}.set", ex.S.Py))}, fresh=v.fresh)
     if v is None:
         return v
     raise Unsupported(f"cannot havoc {name} = {v!r}")
